@@ -6,29 +6,41 @@ CFG = {
     "prop_file": "theories/Properties/C20.v",
     "theory_files": ["theories/Tri/Delaunay.v", "theories/Tri/DelaunayProofs.v",
                      "theories/Tri/BowyerWatson.v", "theories/Tri/BowyerWatsonProofs.v"],
-    "level_text": "Coq theorems about an exact-rational model of triangulation.BowyerWatson (vertex identity, common "
-                  "clockwise winding with non-zero area, independence of the map iteration order, the repaired super "
-                  "triangle strictly contains every input, one-insertion preservation of the empty-circumcircle "
-                  "invariant given a star-shaped cavity) and a Delaunay checker proved sound AND complete for the "
-                  "four conjuncts of the statement; the checker is run (vm_compute) on every output of the Go code, "
-                  "and the model is tied to the Go code by requiring the same triangle set on exact grid inputs",
+    "level_text": "Coq theorems about an exact-rational model of triangulation.BowyerWatson: vertex identity, common "
+                  "clockwise winding with non-zero area under general position, independence of the Go map's iteration "
+                  "order (for every schedule), the repaired super triangle strictly contains every input (all scales and "
+                  "offsets) while the pinned one does not, one insertion preserves the empty-circumcircle invariant given "
+                  "a star-shaped cavity and hence (bw_delaunay_partial) the whole run is Delaunay given that hypothesis at "
+                  "every step; a Delaunay checker proved sound AND complete for the four conjuncts of the statement. The "
+                  "checker is run (vm_compute) on every output of the Go code; the model is tied to the Go code by "
+                  "requiring the same triangle set on exact grid inputs, and the cavity hypotheses of the conditional "
+                  "theorem are decided (proved decision procedure) on every model-compared input",
     "level_note": "Trusted: Coq kernel + vm_compute; hand-written model tied by differential correspondence only; "
-                  "full Delaunay correctness of the algorithm (bw_delaunay) is NOT proved - only bw_delaunay_partial; "
-                  "the property on the implementation's output is decided per case by the certified checker",
-    "technique": "Coq proof (reflection of a Fourier-Motzkin/in-circle checker over Q; invariants by induction over "
-                 "the insertion sequence) + vm_compute correspondence check",
+                  "full Delaunay correctness of the algorithm (bw_delaunay) is NOT proved - bw_delaunay_partial assumes "
+                  "star-shaped cavities (checked per tested input, not proved for all); non-overlap of the algorithm's "
+                  "output is only checked per case by the certified checker; coverage of the convex hull fails on /repo "
+                  "HEAD (known finding, bw_coverage_refuted)",
+    "technique": "Coq proof (reflection of a bounding-box / separating-edge / Fourier-Motzkin and in-circle checker over Q; "
+                 "invariants by induction over the insertion sequence; pencil-of-circles identity by ring) + vm_compute "
+                 "correspondence check",
     "design_ref": "DESIGN.md §4 C20",
-    "n_quick": 128, "n_thorough": 1200,
-    "rule": "point sets in general position (no 3 collinear, no 4 concyclic: exact integer rejection) on integer grids "
-            "(extent <= 127 so that every float64 operation of the implementation incl. super-triangle tests is exact), "
-            "3-200 points, uniform / clustered / flat-hull / near-line / strip / ring, random insertion order, scaled "
-            "by 2^-20..2^20 and offset up to 2^30; distinct by (points, scale, offset); non-trivial = at least 4 points",
+    "n_quick": 96, "n_thorough": 600,
+    "rule": "9 fixed corner cases (incl. the repaired defect's input at 2^-7 and 2^-20 and the known-finding example) + "
+            "point sets in general position (no 3 collinear, no 4 concyclic: exact integer rejection) on integer grids "
+            "of extent <= 127 (<= 254 for the large class) so that every float64 operation of the implementation incl. "
+            "the super-triangle tests is exact; 3-40 points model-compared, 1/16 of the cases 41-~125 points checker "
+            "only; uniform / clustered / flat-hull / near-line / strip / ring; random insertion order; 3/4 of the cases "
+            "scaled by 2^-20..2^20 and half of them offset up to 2^30 (metamorphic oracle: same triangle set as "
+            "unscaled); distinct by (points, scale, offset); non-trivial = at least 4 points",
     "trusted": ["float64 arithmetic of the implementation is exact on the generated inputs by construction (bound "
                 "12*D^4 < 2^53 checked per case by the harness: exactOK); coordinates reach Coq as integers in grid units",
-                "known-finding classification (hull triangles dropped by the finite super triangle) is computed by the "
-                "harness with exact integer/rational arithmetic against a brute-force Delaunay triangulation"],
+                "known-finding classification (every missing true-Delaunay triangle has a super-triangle vertex inside "
+                "or on its circumcircle; output otherwise a duplicate-free, consistently wound subset of the brute-force "
+                "Delaunay triangulation) is computed by the harness in exact integer arithmetic; such an input is written "
+                "as two cases so that vertex identity and delaunayb are still evaluated in Coq without the FailKey"],
     "modelled": ["Go map iteration order is modelled as list order; bw_order_independent proves the result set does not depend on it",
-                 "float64 rounding is outside the model (inputs are chosen so that no rounding occurs)"],
+                 "float64 rounding is outside the model (inputs are chosen so that no rounding occurs)",
+                 "log.Print calls of fillHole and the TexCoord attribute (all zero) are not modelled"],
 }
 
 
